@@ -296,6 +296,17 @@ def _run_watch(cmd, timeout, stall):
     return (-9 if reason else p.returncode), dec("o"), dec("e"), reason
 
 
+def _confirm_alone(mode, cases_file, block, release, extra):
+    """one case in a fresh process -> (rc, its output) ; rc 0 only if the process ended normally with the case complete"""
+    cf = cases_file + ".confirm"
+    open(cf, "w").write(block + "\n")
+    rc, out, _err, reason = _run_watch([harness_bin(release), mode, cf] + (extra or []), 600, STALL_AGAIN)
+    if reason or rc != 0 or len(re.findall(r"^end$", out, flags=re.M)) != 1:
+        return (rc if rc != 0 else -1), ""
+    keep = re.findall(r"^case .*?^end$", out, flags=re.S | re.M)
+    return 0, (keep[0] + "\n" if keep else "")
+
+
 def harness_run(mode, cases_file, release=False, timeout=1800, extra=None):
     """runs the harness; exit status 3 means "a watchdog expired in the last case printed": the process
     is restarted on the remaining cases so that abandoned (spinning) threads do not accumulate"""
@@ -315,11 +326,20 @@ def harness_run(mode, cases_file, release=False, timeout=1800, extra=None):
             err += "\n[driver] " + reason
             stalls += 1
         if rc in (0, 2, 3) or rounds > 2000:
+            done = len(re.findall(r"^end$", out, flags=re.M))
+            if rc == 3 and 0 < done <= len(pending):
+                # a watchdog expired in the last case printed. Before that is believed the case is run once more, alone,
+                # in a fresh process: on a loaded machine a call can exceed its time limit without hanging, and an alarm
+                # must not depend on the load. A call that really does not return fails the second time as well.
+                rc1, out1 = _confirm_alone(mode, cases_file, pending[done - 1], release, extra)
+                if rc1 == 0:
+                    blocks_out = re.findall(r"^case .*?^end$", out, flags=re.S | re.M)
+                    out = "\n".join(blocks_out[:done - 1]) + ("\n" if done > 1 else "") + out1
+                    err += "\n[driver] a watchdog expiry in case %s was not reproduced when the case ran alone\n" % pending[done - 1].split()[1]
             all_out.append(out)
             all_err.append(err)
             if rc != 3 or rounds > 2000:
                 return rc, "".join(all_out), "".join(all_err)
-            done = len(re.findall(r"^end$", out, flags=re.M))
             pending = pending[done:]
             if not pending:
                 return 0, "".join(all_out), "".join(all_err)
@@ -338,7 +358,14 @@ def harness_run(mode, cases_file, release=False, timeout=1800, extra=None):
         all_err.append(err)
         if done < len(pending):
             cid = pending[done].split()[1]
-            all_out.append("case %s\nO 1 1 1 101 F 0\nO 9 1 1 %d F 0\nend\n" % (cid, rc))
+            rc1, out1 = _confirm_alone(mode, cases_file, pending[done], release, extra)
+            if rc1 == 0:
+                all_out.append(out1)
+                all_err.append("\n[driver] the death of the harness in case %s (status %d) was not reproduced when the case ran alone\n" % (cid, rc))
+                if reason:
+                    stalls -= 1
+            else:
+                all_out.append("case %s\nO 1 1 1 101 F 0\nO 9 1 1 %d F 0\nend\n" % (cid, rc))
         pending = pending[done + 1:]
         if pending and stalls >= MAX_STALLS:
             # as MAX_HANG_RESTARTS: the verdict is settled, the rest would cost STALL_LIMIT seconds per hanging case
